@@ -7,6 +7,7 @@ MODULES = [
     'contracts.taskfuncs',
     'contracts.datacls',
     'contracts.parallel',
+    'contracts.cache',
 ]
 
 
@@ -20,7 +21,7 @@ class _Lazy(dict):
 
     def get(self, prop, default=None):
         s = _standins()
-        table = {'C06': [s.c06_roundtrip], 'C17': [s.c17_parallel_map]}
+        table = {'C06': [s.c06_roundtrip], 'C17': [s.c17_parallel_map], 'C14': [s.c14_caches], 'C16': [s.c16_cached]}
         return table.get(prop, default if default is not None else [])
 
 
@@ -30,7 +31,7 @@ EXTRA_CHECKS = _Lazy()
 class _LazyReplay(dict):
     def __getitem__(self, name):
         s = _standins()
-        return {'c06_roundtrip': s.replay_c06, 'c17_parallel_map': s.replay_c17}[name]
+        return {'c06_roundtrip': s.replay_c06, 'c17_parallel_map': s.replay_c17, 'c14_caches': s.replay_c14, 'c16_cached': s.replay_c16}[name]
 
 
 EXTRA_REPLAY = _LazyReplay()
